@@ -61,7 +61,7 @@ class C15(Prop):
     assumptions = ['dilation 1, groups 1, zero padding given as ints (string paddings are not supported by the helper and outside the statement)',
                    'float64 helper-level comparison with relative tolerance 1e-10 (the operations differ only in summation order)']
     examples = {'quick': 600, 'thorough': 3000}
-    shards = {'quick': 2, 'thorough': 16}
+    shards = {'quick': 8, 'thorough': 16}
     required_labels = {'quick': ['kind=conv', 'kind=linear', 'nontrivial=True', 'asym_pad=True', 'nondivisible=True', 'permuted=True', 'weight_cl=True', 'large_batch=True'],
                        'thorough': ['kind=conv', 'kind=linear', 'nontrivial=True', 'asym_pad=True', 'nondivisible=True', 'permuted=True', 'weight_cl=True', 'large_batch=True']}
 
